@@ -149,14 +149,41 @@ def jug_cmd(sub, root, extra=()):
     return [sys.executable, '-c', code, sub, os.path.join(root, 'jf.py'), '--jugdir', layout(root)['cli'], '--will-cite'] + list(extra)
 
 
-def start_worker(root, nr_wait=4, cycle=1, verbose=False, opts=(), env_extra=None):
+def proc_stat(pid):
+    """(state, ppid) of a process, or None"""
+    try:
+        data = open('/proc/%d/stat' % pid).read()
+    except OSError:
+        return None
+    rest = data[data.rindex(')') + 1:].split()
+    return rest[0], int(rest[1])
+
+
+def find_child(ppid, needle, timeout=15.0):
+    """pid of a live child of `ppid` whose command line contains `needle` (the keep-alive monitor of a held lock)"""
+    t_end = time.time() + timeout
+    while time.time() < t_end:
+        for d in os.listdir('/proc'):
+            if d.isdigit():
+                st = proc_stat(int(d))
+                if st is not None and st[1] == ppid and st[0] != 'Z':
+                    try:
+                        if needle in open('/proc/%s/cmdline' % d, 'rb').read():
+                            return int(d)
+                    except OSError:
+                        pass
+        time.sleep(0.02)
+    return None
+
+
+def start_worker(root, nr_wait=4, cycle=1, verbose=False, opts=(), env_extra=None, own_group=False):
     extra = ['--nr-wait-cycles', str(nr_wait), '--wait-cycle-time', str(cycle)] + list(opts)
     if verbose:
         extra += ['--verbose', 'info']
     errf = open(os.path.join(root, 'err.%d.%d' % (os.getpid(), int(time.time() * 1e6) % 10 ** 9)), 'w+')
     env = py_env()
     env.update(env_extra or {})
-    p = subprocess.Popen(jug_cmd('execute', root, extra), cwd=root, env=env, stdout=subprocess.DEVNULL, stderr=errf)
+    p = subprocess.Popen(jug_cmd('execute', root, extra), cwd=root, env=env, stdout=subprocess.DEVNULL, stderr=errf, start_new_session=own_group)
     p.errf = errf
     return p
 
@@ -261,7 +288,10 @@ def one_run(rng, mode, params=None):
                 # repeated stop requests: the later ones arrive while the task function is still unwinding through its own clean-up
                 ('signals', lambda: [mode] + ([rng.choice(['term', 'int']) for _ in range(rng.choice([1, 1, 2]))] if mode != 'kill' and rng.random() < 0.3 else [])),
                 ('kill_at', lambda: '%s:%d' % (('fsync', rng.randint(1, 6)) if rng.random() < 0.6 else ('rename', rng.randint(1, 3)))),
-                ('store', lambda: rng.choice(['file', 'file', 'file', 'own'] if mode == 'kill' else ['file', 'file', 'keepalive', 'dictfile']))]
+                ('store', lambda: rng.choice(['file', 'file', 'file', 'own'] if mode == 'kill' else ['file', 'file', 'keepalive', 'dictfile'])),
+                # the stop request reaches the whole process group (Ctrl-C on a terminal, kill -TERM -pgid, a cancelled batch job): the keep-alive
+                # monitor of the held lock, a child of the worker, gets it too and is gone before the worker unwinds
+                ('group', lambda: mode != 'kill' and rng.random() < 0.5)]
     for k, f in defaults:
         v = f()                 # always drawn, so that presets do not shift the random stream
         params.setdefault(k, v)
@@ -280,6 +310,8 @@ def one_run(rng, mode, params=None):
             params['when'] = 'in-function'
         edges = SHAPES[params['shape']]
         n = len(edges)
+    if params['store'] != 'keepalive' or params['when'] != 'in-function':
+        params['group'] = False
     if params['when'] != 'in-function' or mode == 'kill':
         params['signals'] = [mode]
     if params['when'] == 'in-dump':
@@ -336,7 +368,7 @@ def one_run(rng, mode, params=None):
                     delivered = True
             else:
                 for k in range(params['nworkers']):
-                    procs.append(start_worker(root, opts=params['opts']))
+                    procs.append(start_worker(root, opts=params['opts'], own_group=bool(params.get('group')) and k == params['victim']))
                 victim = procs[params['victim']]
                 if params['when'] == 'in-function':
                     # wait until the victim is inside its nth task function (it sleeps there for `dur` seconds), then signal at once
@@ -349,6 +381,20 @@ def one_run(rng, mode, params=None):
                             last = o[0]
                             seen += 1
                             if seen > params['nth'] or last == n - 1:
+                                if params.get('group'):
+                                    # deterministic order of a group-wide signal: the monitor of the held lock first (wait until it is dead) ...
+                                    mon = find_child(victim.pid, b'file_keepalive_monitor')
+                                    params['monitor_found'] = mon is not None
+                                    if mon is not None:
+                                        os.kill(mon, sig)
+                                        t_m = time.time() + 10
+                                        while time.time() < t_m and (proc_stat(mon) or ('Z',))[0] != 'Z':
+                                            time.sleep(0.01)
+                                    # ... then the rest of the group (= the worker)
+                                    params['t_sig'] = time.time()
+                                    os.killpg(os.getpgid(victim.pid), sig)
+                                    delivered = True
+                                    break
                                 params['t_sig'] = time.time()
                                 victim.send_signal(sig)
                                 delivered = True
@@ -466,18 +512,21 @@ def _runs(ck, n, modes, presets=()):
             mode, preset = presets[i]
             preset = dict(preset)
             preset.setdefault('signals', [mode])
+            preset.setdefault('group', False)
         else:
             preset = None
         params, found = one_run(ck.rng, mode, preset)
         if _timed_out(found):                   # a loaded machine: once more before it counts
             ck.count('process-run:retried after a timeout')
-            params, found = one_run(ck.rng, mode, {k: params[k] for k in ('shape', 'dur', 'nworkers', 'victim', 'when', 'delay', 'nth', 'opts', 'signals', 'kill_at', 'store')})
+            params, found = one_run(ck.rng, mode, {k: params[k] for k in ('shape', 'dur', 'nworkers', 'victim', 'when', 'delay', 'nth', 'opts', 'signals', 'kill_at', 'store', 'group')})
         if i < len(presets) and params['when'] == 'in-dump' and not params.get('delivered'):
             # a deterministic kill point that did not fire: once more, then it is a hole in the check (e.g. the publishing primitive changed)
-            params, found = one_run(ck.rng, mode, {k: params[k] for k in ('shape', 'dur', 'nworkers', 'victim', 'when', 'delay', 'nth', 'opts', 'signals', 'kill_at', 'store')})
+            params, found = one_run(ck.rng, mode, {k: params[k] for k in ('shape', 'dur', 'nworkers', 'victim', 'when', 'delay', 'nth', 'opts', 'signals', 'kill_at', 'store', 'group')})
             if not params.get('delivered'):
                 ck.broken.append('coverage lost: the kill point %s inside file_store.dump was never reached (preset %d)' % (params['kill_at'], i))
         ck.count('process-run:%s:store %s' % (mode, params['store']))
+        if params.get('group'):
+            ck.count('process-run:%s:signal to the whole process group, keep-alive monitor dead first%s' % (mode, '' if params.get('monitor_found') else ' (monitor not found)'))
         ck.count('process-run:%s:%s:%s' % (mode, params['when'], ('delivered' if params.get('valid_instant') else 'delivered at an instant outside the property (not judged)')
                                            if params.get('delivered') else 'too-late'))
         for o in params['opts']:
@@ -498,6 +547,7 @@ def _runs(ck, n, modes, presets=()):
 SIGNAL_PRESETS = (('term', {'when': 'in-function', 'nworkers': 1, 'opts': ['--no-check-environment'], 'store': 'file'}),
                   ('term', {'when': 'in-function', 'nworkers': 1, 'opts': [], 'store': 'dictfile'}),
                   ('int', {'when': 'in-function', 'nworkers': 1, 'opts': ['--keep-going', '--keep-failed'], 'store': 'keepalive'}),
+                  ('term', {'when': 'in-function', 'nworkers': 1, 'opts': [], 'store': 'keepalive', 'group': True, 'dur': 0.8}),
                   ('int', {'when': 'in-function', 'nworkers': 1, 'opts': ['--no-check-environment'], 'store': 'dictfile'}),
                   ('term', {'when': 'in-function', 'nworkers': 1, 'opts': [], 'signals': ['term', 'term'], 'store': 'file'}),
                   ('int', {'when': 'in-function', 'nworkers': 1, 'opts': ['--keep-going'], 'signals': ['int', 'term', 'int'], 'store': 'file'}),
@@ -526,7 +576,7 @@ def kill_runs(ck, n):
 def replay(obj):
     import random
     if obj.get('mode') == 'failure':
-        params = {k: v for k, v in obj['params'].items() if k in ('shape', 'keep_going', 'keep_failed', 'barrier', 'exc', 'store')}
+        params = {k: v for k, v in obj['params'].items() if k in ('shape', 'keep_going', 'keep_failed', 'barrier', 'bvalue', 'exc', 'store')}
         p, found = failure_run(random.Random(0), params)
         print('log:', p.get('log'), 'exit statuses:', p.get('statuses'))
         print('expected (recorded):', obj.get('what'))
@@ -535,7 +585,7 @@ def replay(obj):
         if not found:
             print('observed: no violation on this tree')
         return 1 if found else 0
-    params = {k: v for k, v in obj['params'].items() if k in ('shape', 'dur', 'nworkers', 'victim', 'when', 'delay', 'nth', 'opts', 'signals', 'kill_at', 'store')}
+    params = {k: v for k, v in obj['params'].items() if k in ('shape', 'dur', 'nworkers', 'victim', 'when', 'delay', 'nth', 'opts', 'signals', 'kill_at', 'store', 'group')}
     p, found = one_run(random.Random(0), obj['mode'], params)
     print('log:', p.get('log'))
     print('expected (recorded):', obj.get('what'))
@@ -548,12 +598,13 @@ def replay(obj):
 
 # ================================================================ C11: failing tasks through the real `jug execute` command
 FAIL_JUGFILE = '''%(header)simport os, time
-from jug import TaskGenerator, barrier
+from jug import TaskGenerator, barrier, bvalue
 
 LOG = %(log)r
 EDGES = %(edges)r
 FAIL = %(fail)r
 BARRIER_AFTER = %(barrier)r
+BVALUE = %(bvalue)r          # [after task k, task j]: bvalue(tasks[j]) right after task k is defined
 EXC = %(exc)r
 
 
@@ -592,11 +643,15 @@ for i, ds in enumerate(EDGES):
     tasks.append(node(i, *[tasks[d] for d in ds]))
     if i == BARRIER_AFTER:
         barrier()
+    if BVALUE and i == BVALUE[0]:
+        bvalue(tasks[BVALUE[1]])
 '''
 
 FAIL_SHAPES = {  # edges, failing set, barrier after task (None: no barrier) -> which tasks exist / can complete is computed below
     'fork': ([[], [0], [0], [1]], [1]), 'chain': ([[], [0], [1]], [1]), 'indep': ([[], [], [], [2]], [0]), 'two': ([[], [0], [0], [1], [2]], [1, 2]),
-    'late': ([[], [0], [1], [0]], [2])}
+    'late': ([[], [0], [1], [0]], [2]),
+    # boom; child(boom); split; [bvalue(split)]; work(split); work()   and   ok; [bvalue(ok)]; ok2; boom; child(boom); ok3(ok2)
+    'bv': ([[], [0], [], [2], []], [0]), 'bv2': ([[], [], [], [2], [1]], [2])}
 
 
 EXC_CLASSES = ('RuntimeError', 'TypeError', 'ValueError', 'KeyError', 'AssertionError', 'OSError', 'MyError', 'MyTypeError', 'StopIteration',
@@ -608,12 +663,15 @@ def failure_run(rng, params=None):
     `cleanup --failed-only` and a third.  -> (params, findings)"""
     params = dict(params or {})
     for k, f in [('shape', lambda: rng.choice(sorted(FAIL_SHAPES))), ('keep_going', lambda: rng.random() < 0.5), ('keep_failed', lambda: rng.random() < 0.5),
-                 ('barrier', lambda: rng.choice([None, None, 0, 1, 2])),
+                 ('barrier', lambda: rng.choice([None, None, 0, 1, 2])), ('bvalue', lambda: None),
                  ('exc', lambda: rng.choice(EXC_CLASSES)), ('store', lambda: rng.choice(['file', 'file', 'dictfile']))]:
         v = f()
         params.setdefault(k, v)
     edges, fail = FAIL_SHAPES[params['shape']]
     n = len(edges)
+    if params['shape'] in ('bv', 'bv2') and params['bvalue'] is None:
+        params['bvalue'] = [2, 2] if params['shape'] == 'bv' else [0, 0]
+        params['barrier'] = None
     bar = params['barrier']
     flags = (['--keep-going'] if params['keep_going'] else []) + (['--keep-failed'] if params['keep_failed'] else [])
     # which tasks have a value at all
@@ -625,12 +683,16 @@ def failure_run(rng, params=None):
     defined = list(range(n))
     if bar is not None and any(i in bad for i in range(bar + 1)):
         defined = list(range(bar + 1))
+    # bvalue(t) opens as soon as t itself is stored - whatever else failed: only a bvalue on a task without a value stays closed
+    bv = params['bvalue']
+    if bv and bv[1] in bad:
+        defined = [i for i in defined if i <= bv[0]]
     found = []
     ordinary = params['exc'] != 'MyBase'         # a BaseException that is no Exception is not a task failure for jug: the worker just dies (non-zero)
     with jugrun.scratch_dir('jugvf') as root:
         lay = set_layout(root, params['store'])
         with open(os.path.join(root, 'jf.py'), 'w') as f:
-            f.write(FAIL_JUGFILE % {'log': os.path.join(root, 'log'), 'edges': edges, 'fail': sorted(fail), 'barrier': bar, 'exc': params['exc'],
+            f.write(FAIL_JUGFILE % {'log': os.path.join(root, 'log'), 'edges': edges, 'fail': sorted(fail), 'barrier': bar, 'bvalue': params['bvalue'], 'exc': params['exc'],
                                     'header': lay['header']})
 
         def execute(extra=()):
@@ -714,7 +776,9 @@ FAILURE_PRESETS = ({'shape': 'fork', 'keep_going': True, 'keep_failed': True, 'b
                    {'shape': 'indep', 'keep_going': False, 'keep_failed': False, 'barrier': 0, 'exc': 'MyError', 'store': 'file'},
                    {'shape': 'two', 'keep_going': True, 'keep_failed': True, 'barrier': 2, 'exc': 'AssertionError', 'store': 'file'},
                    {'shape': 'late', 'keep_going': True, 'keep_failed': False, 'barrier': 1, 'exc': 'StopIteration', 'store': 'dictfile'},
-                   {'shape': 'indep', 'keep_going': False, 'keep_failed': True, 'barrier': None, 'exc': 'OSError', 'store': 'file'})
+                   {'shape': 'indep', 'keep_going': False, 'keep_failed': True, 'barrier': None, 'exc': 'OSError', 'store': 'file'},
+                   {'shape': 'bv', 'keep_going': True, 'keep_failed': False, 'barrier': None, 'bvalue': [2, 2], 'exc': 'RuntimeError', 'store': 'file'},
+                   {'shape': 'bv2', 'keep_going': True, 'keep_failed': True, 'barrier': None, 'bvalue': [0, 0], 'exc': 'ValueError', 'store': 'dictfile'})
 
 
 def _timed_out(found):
@@ -726,9 +790,11 @@ def failure_runs(ck, n):
         params, found = failure_run(ck.rng, FAILURE_PRESETS[i] if i < len(FAILURE_PRESETS) else None)
         if _timed_out(found):                   # a loaded machine: once more before it counts
             ck.count('process-run:retried after a timeout')
-            params, found = failure_run(ck.rng, {k: params[k] for k in ('shape', 'keep_going', 'keep_failed', 'barrier', 'exc', 'store')})
+            params, found = failure_run(ck.rng, {k: params[k] for k in ('shape', 'keep_going', 'keep_failed', 'barrier', 'bvalue', 'exc', 'store')})
         ck.count('process-run:failing-task:kg=%d,kf=%d,barrier=%s' % (params['keep_going'], params['keep_failed'], 'yes' if params['barrier'] is not None else 'no'))
         ck.count('process-run:failing-task raises %s' % params['exc'])
+        if params.get('bvalue'):
+            ck.count('process-run:failing-task next to a bvalue() that can open')
         ck.count('process-run:failing-task:store %s' % params['store'])
         for f in found:
             ck.violation({'kind': 'impl-violation', 'kind2': 'process-run', 'what': f['what'], 'finding': f, 'mode': 'failure', 'params': params}, found_input=True)
